@@ -727,7 +727,8 @@ def make_lfn_entry(dir_name: str,
     dir_name_modulus = len(dir_name) % lfn_entry_length
 
     if EightDotThree.is_8dot3_conform(dir_name_str,
-                                      encoding=short_name.encoding):
+                                      encoding=short_name.encoding) and \
+            short_name.get_unpadded_filename() == dir_name_str:
         raise PyFATException("Directory entry is already 8.3 conform, "
                              "no need to create an LFN entry.",
                              errno=errno.EINVAL)
